@@ -15,11 +15,7 @@ var NonWf = map[string]string{
 	"wallet.RawMessage":                  "helper struct with a plain *boc.Cell field (a cell stored inline replaces the cell under construction)",
 }
 
-// types that contain a hand-written codec whose round-trip lemma (CodecOK) is not proved yet: the model of the codec
-// exists and is compared with the implementation on every run, but the generic theorem does not cover these types
-var unprovedCodec = map[string]string{
-	"wallet.W5Actions": "w5Actions", "wallet.MessageV5Beta": "w5Actions",
-}
+var unprovedCodec = map[string]string{}
 
 // get-method result structs: filled from the VM stack, never laid out in a cell; they hold boc.Cell / Any values inline
 var getMethodResults = []string{
